@@ -63,6 +63,7 @@ obs_struct!(
     node_future_events_reading_left_open,
     node_interval_rollovers,
     record_steps_with_retained_older_event,
+    fractional_duration_steps,
 );
 
 #[derive(Default)]
@@ -667,8 +668,11 @@ fn tumbling_shape(clause: &'static str, step: usize, ws: &[WSnap], d: u64, base:
     ok
 }
 
-pub fn run_wm(d: u64, cap: usize, max_windows: usize, base: u64, evs: &[Ev], from: usize, r: &mut Run) {
+pub fn run_wm(d: u64, cap: usize, max_windows: usize, base: u64, evs: &[Ev], from: usize, frac_us: u32, r: &mut Run) {
     const CL: &str = "window-manager";
+    if frac_us != 0 {
+        return run_wm_fractional(d, cap, max_windows, base, evs, from, frac_us, r);
+    }
     let mut m = WindowManager::new(WindowType::Tumbling, Duration::from_millis(d), cap, max_windows);
     let aggs = AggSet::new();
     let mut max_ts: Option<u64> = None;
@@ -787,6 +791,41 @@ pub fn run_wm(d: u64, cap: usize, max_windows: usize, base: u64, evs: &[Ev], fro
                     )
                 });
             }
+        }
+    }
+}
+
+/// A duration with a sub-millisecond part: only the interpretation-free clause is judged (the
+/// event just offered is held by exactly one window and that window's own span contains it).
+#[allow(clippy::too_many_arguments)]
+fn run_wm_fractional(d: u64, cap: usize, max_windows: usize, base: u64, evs: &[Ev], from: usize, frac_us: u32, r: &mut Run) {
+    const CL: &str = "window-manager";
+    let dur = Duration::from_micros(d.saturating_mul(1000).saturating_add(frac_us as u64));
+    let mut m = WindowManager::new(WindowType::Tumbling, dur, cap, max_windows);
+    for (i, ev) in evs.iter().enumerate() {
+        let ts = base + ev.ts;
+        m.process_event(mk_event(i, ts, &ev.pay));
+        r.obs.events_offered += 1;
+        if i < from {
+            continue;
+        }
+        r.obs.steps_monitored += 1;
+        r.obs.fractional_duration_steps += 1;
+        let n = snap_windows(m.active_windows());
+        r.max_windows_seen = r.max_windows_seen.max(n.len() as u64);
+        let holders: Vec<&WSnap> = n.iter().filter(|w| w.evs.iter().any(|x| x.0 == i as u32)).collect();
+        match holders.len() {
+            1 => {
+                let h = holders[0];
+                r.obs.accepted += 1;
+                if !(h.start <= ts && ts < h.end) {
+                    r.flag(i, CL, "new-event-in-a-window-whose-span-does-not-contain-it:fractional-duration", || {
+                        format!("step {}: duration {} ms + {} us: e{}@{} is in window [{}, {})", i, d, frac_us, i, ev.ts, h.start.wrapping_sub(base), h.end.wrapping_sub(base))
+                    });
+                }
+            }
+            0 => r.flag(i, CL, "new-event-in-no-window:fractional-duration", || format!("step {}: duration {} ms + {} us, cap {}, window limit {}: after process_event(e{}@{}) no window holds the event; windows {}", i, d, frac_us, cap, max_windows, i, ev.ts, fmt_windows(&n, base))),
+            k => r.flag(i, CL, "new-event-in-several-windows:fractional-duration", || format!("step {}: duration {} ms + {} us: e{}@{} is in {} windows {}", i, d, frac_us, i, ev.ts, k, fmt_windows(&n, base))),
         }
     }
 }
@@ -1065,7 +1104,7 @@ pub fn run_case(c: &Case, from: usize) -> Run {
     let mut r = Run::default();
     match c {
         Case::Tw { sliding, start, d, cap, base, ops } => run_tw(*sliding, *start, *d, *cap, *base, ops, from, &mut r),
-        Case::Wm { d, cap, max_windows, base, evs } => run_wm(*d, *cap, *max_windows, *base, evs, from, &mut r),
+        Case::Wm { d, cap, max_windows, base, evs, frac_us } => run_wm(*d, *cap, *max_windows, *base, evs, from, *frac_us, &mut r),
         Case::Ws { d, cap, base, via_datastream, evs } => run_ws(*d, *cap, *base, *via_datastream, evs, &mut r),
         Case::Node { sliding, d, cap, base, clock0, ops } => run_node(*sliding, *d, *cap, *base, *clock0, ops, from, &mut r),
     }
